@@ -137,5 +137,14 @@ PROPS['C18'] = Prop(
     outside='more than three ids in a law / four in a dispatcher; Storage types supporting only one of == and <; std::any storage',
     assumptions=['Digester is a functional stub (arbitrary 64-bit digest per distinct value); unordered_map bucket growth is the model in support/stdsupport.cpp'])
 
+_AD = ('AnyData<%d> (effective capacity %d): stored types = trivially copyable structs of 1, 2, 8, cap-1, cap, cap+1, cap+9 bytes with fully symbolic contents; ledger-tracked copyable and move-only '
+       'structs of 9, cap-1, cap, cap+1, cap+9 bytes; shared_ptr<int>; constructed from lvalue / const lvalue / rvalue; chain of <= 2 moves; EventQueue round trip with slot reuse')
+PROPS['C17'] = Prop(
+    quick=[Run('anydata_m16', 'anydata.cpp', {'MM': 16}, covers=8, bounds=_AD % (16, 16)),
+           Run('anydata_m1', 'anydata.cpp', {'MM': 1}, covers=8, bounds=_AD % (1, 16)),
+           Run('anydata_m24', 'anydata.cpp', {'MM': 24}, covers=8, bounds=_AD % (24, 24))],
+    outside='stored sizes other than the listed ones (sizes are compile-time: enumerated by template instantiation, not symbolic); chains of more than 2 moves; types with alignment > 8',
+    assumptions=['type identity is checked against the instantiated set of types only'])
+
 HOOK_COMMITS = []
 EBMC_PROPS = []
